@@ -209,12 +209,15 @@ func loadStateAtHeight(db kaidb.Database, height uint64) *LatestBlockState {
 		panic(fmt.Errorf(`block meta not found at height %v`, height))
 	}
 	state.LastBlockHeight = blockMeta.Header.Height
-	state.LastBlockID = blockMeta.BlockID
+	if height > 0 { // the genesis state has no last block: MakeGenesisState leaves the block id and the app hash zero
+		state.LastBlockID = blockMeta.BlockID
+	}
 	state.LastBlockTime = blockMeta.Header.Time
 	state.LastBlockTotalTx = blockMeta.Header.NumTxs
 
-	appHash := rawdb.ReadAppHash(db, height)
-	state.AppHash = appHash
+	if height > 0 {
+		state.AppHash = rawdb.ReadAppHash(db, height)
+	}
 
 	lValsInfo := readValidatorsInfoAt(db, common.BytesToHash(sp.LastValidatorsInfoHash), height)
 	if state.LastBlockHeight > 0 {
